@@ -29,14 +29,17 @@ type pworld struct {
 	// references written in nested positions of the environment evaluated by
 	// the models of the current read (reset per read by the reader)
 	nestedHits int
-	root       *tn
-	env        *tn          // environment (Env option), nil: none
-	envCfg     *ucfg.Config // the environment as library object
-	res        map[string]string
-	aliases    []string // paths of alias settings
-	texts      []string // paths of text settings
-	names      []string // pool of names used in references and API calls
-	chain      bool
+	// substituted texts that became a non-canonically written number in the
+	// models of the current read (such reads are not judged)
+	nonCanonHits int
+	root         *tn
+	env          *tn          // environment (Env option), nil: none
+	envCfg       *ucfg.Config // the environment as library object
+	res          map[string]string
+	aliases      []string // paths of alias settings
+	texts        []string // paths of text settings
+	names        []string // pool of names used in references and API calls
+	chain        bool
 }
 
 var aliasNames = []string{"x", "y", "z", "v", "w"}
@@ -354,6 +357,7 @@ func (t *pworld) opts() []ucfg.Option {
 
 func (t *pworld) newPev() *pev {
 	p := &pev{root: t.root, res: t.res}
+	p.nonCanon = &t.nonCanonHits
 	if t.env != nil {
 		p.env, p.envNodes, p.envNested = t.env, map[*tn]bool{}, map[*tn]bool{}
 		p.nestedHits = &t.nestedHits
@@ -482,10 +486,13 @@ func (pr *preader) run(what string, f func()) bool { return pr.g.run(what, f) }
 // readPath: all reads of one path.
 func (pr *preader) readPath(P string) {
 	t, c, opts, res := pr.t, pr.c, pr.opts, pr.res
-	t.nestedHits = 0
+	t.nestedHits, t.nonCanonHits = 0, 0
 	defer func() {
 		if t.nestedHits > 0 {
 			res.Ev("path_reads_evaluating_references_nested_in_the_environment", 1)
+		}
+		if t.nonCanonHits > 0 {
+			res.Ev("path_reads_not_judged_text_becomes_a_noncanonical_numeral", 1)
 		}
 	}()
 	m := t.newPev()
@@ -815,10 +822,13 @@ func (pr *preader) readSlices(P string, n *tn, st []string, entry string) {
 // readWhole: reads of the whole configuration.
 func (pr *preader) readWhole() {
 	t, c, opts, res := pr.t, pr.c, pr.opts, pr.res
-	t.nestedHits = 0
+	t.nestedHits, t.nonCanonHits = 0, 0
 	defer func() {
 		if t.nestedHits > 0 {
 			res.Ev("path_whole_reads_evaluating_references_nested_in_the_environment", 1)
+		}
+		if t.nonCanonHits > 0 {
+			res.Ev("path_reads_not_judged_text_becomes_a_noncanonical_numeral", 1)
 		}
 	}()
 	m := t.newPev()
